@@ -1,0 +1,34 @@
+//go:build verif
+
+package internal
+
+// Contracts for singleflight.go (property C13: one load in flight per key, failures not cached).
+
+// the function being de-duplicated: arbitrary code that does not touch the group (A-CALLBACK)
+func (g *Group[K, V]) fspec_doCall_fn() (v V, err error) {
+	requires("no_group_lock", !held(g.mu))
+	return
+}
+
+func (g *Group[K, V]) fspec_Do_fn() (v V, err error) {
+	requires("no_group_lock", !held(g.mu))
+	return
+}
+
+// doCall runs fn for the registered call c and then, in ONE critical section of the group lock, releases
+// the waiters and removes the table entry - so no later caller can join a finished call, and a failed
+// load is not remembered (C13: failures are not cached; the next Get runs the loader again)
+func (g *Group[K, V]) spec_doCall(c *call[V], key K, fn func() (V, error)) {
+	flag("may_panic") // a panic of fn is re-raised after the bookkeeping (propagation itself is not modelled)
+	requires("registered", c != nil && g.m != nil)
+	ensures("entry_removed", !has(g.m, key) || g.m[key] != c)
+	ensures("others_kept", all(func(k K) bool { return imp(k != key, has(g.m, k) == old(has(g.m, k)) && g.m[k] == old(g.m[k])) }))
+}
+
+// Do: the first caller for a key registers a call under the group lock and runs fn (through doCall); a
+// caller that finds a registered call waits for it instead of running fn
+func (g *Group[K, V]) spec_Do(key K, fn func() (V, error)) (v V, err error, shared bool) {
+	flag("may_panic")
+	ensures("table_clean", imp(!old(has(g.m, key)), !has(g.m, key) || g.m[key] == old(g.m[key])))
+	return
+}
